@@ -281,7 +281,11 @@ Fixpoint run_trace (fuel : nat) (c : com) (s : astate) : option (astate * list a
       match c with
       | CSkip => Some (s, [s])
       | CAssign x e =>
-          match eval (alook s) e with Some (VZ z) => Some (aupd s x z, [s; aupd s x z]) | _ => None end
+          match eval (alook s) e with
+          | Some (VZ z) => if (1000000000000 <? Z.abs z)%Z then None   (* oracle only: keep numbers small *)
+                           else Some (aupd s x z, [s; aupd s x z])
+          | _ => None
+          end
       | CSeq c1 c2 =>
           match run_trace f c1 s with
           | Some (s1, t1) => match run_trace f c2 s1 with
